@@ -52,3 +52,36 @@ mut("d1-revert", ["C01", "C03", "C07"], [(AV, "                if txn.get_client
     "S-NEWCLIENT", "client creation without absence re-check (original defect D1)")
 mut("d1-inverted-check", ["C01", "C03", "C07"], [(AV, "if txn.get_client().map_err(failure_to_ise)?.is_none() {", "if txn.get_client().map_err(failure_to_ise)?.is_some() {")],
     "S-NEWCLIENT", "creation when the client exists")
+
+# ---- C14
+mut("http-low-emits-high", ["C14"], [(AV, "rb.append_header((SNAPSHOT_REQUEST_HEADER, \"urgency=low\"));", "rb.append_header((SNAPSHOT_REQUEST_HEADER, \"urgency=high\"));")], "C14", "Low urgency reported as high")
+mut("http-low-emits-nothing", ["C14"], [(AV, "                    SnapshotUrgency::Low => {\n                        rb.append_header((SNAPSHOT_REQUEST_HEADER, \"urgency=low\"));\n                    }", "                    SnapshotUrgency::Low => {}")], "C14", "Low urgency not reported")
+mut("http-headers-swapped", ["C14"], [(GCV, ".append_header((VERSION_ID_HEADER, version_id.to_string()))\n            .append_header((PARENT_VERSION_ID_HEADER, parent_version_id.to_string()))", ".append_header((VERSION_ID_HEADER, parent_version_id.to_string()))\n            .append_header((PARENT_VERSION_ID_HEADER, version_id.to_string()))")], "C14", "id headers swapped")
+mut("http-gone-as-404", ["C14"], [(GCV, "Err(error::ErrorGone(\"version has been deleted\"))", "Err(error::ErrorNotFound(\"version has been deleted\"))")], "C14", "gone reported as not-found")
+mut("http-nosuchclient-500", ["C14", "C05"], [(API, "ServerError::NoSuchClient => error::ErrorNotFound(err),", "ServerError::NoSuchClient => error::ErrorInternalServerError(err),")], "C14", "unknown client -> 500")
+mut("http-missing-ctype", ["C14"], [(GS, "            .content_type(SNAPSHOT_CONTENT_TYPE)\n", "")], "C14", "snapshot content type missing")
+mut("http-conflict-wrong-header", ["C14"], [(AV, "rb.append_header((PARENT_VERSION_ID_HEADER, parent_version_id.to_string()));", "rb.append_header((VERSION_ID_HEADER, parent_version_id.to_string()));")], "C14", "conflict uses X-Version-Id")
+mut("http-route-method", ["C14"], [(GS, "#[get(\"/v1/client/snapshot\")]", "#[post(\"/v1/client/snapshot\")]")], "C14", "wrong method")
+mut("http-conflict-names-request-parent", ["C14"], [(AV, "            Ok((AddVersionResult::ExpectedParentVersion(parent_version_id), _)) => {", "            Ok((AddVersionResult::ExpectedParentVersion(_), _)) => {")], "C14", "conflict header names the *requested* parent (shadowing removed)")
+mut("http-route-method2", ["C14"], [(GS, "#[get(\"/v1/client/snapshot\")]", "#[actix_web::post(\"/v1/client/snapshot\")]")], "C14", "wrong method")
+
+# ---- C15
+mut("size-ge", ["C15"], [(AV, "if (body.len() + chunk.len()) > MAX_SIZE {", "if (body.len() + chunk.len()) >= MAX_SIZE {")], "C15.BOUND", "limit itself refused")
+mut("size-limits-differ", ["C15"], [(AS, "const MAX_SIZE: usize = 100 * 1024 * 1024;", "const MAX_SIZE: usize = 10 * 1024 * 1024;")], "C15.BOUND", "limits differ")
+mut("size-check-removed", ["C15"], [(AS, "        if (body.len() + chunk.len()) > MAX_SIZE {\n            return Err(error::ErrorBadRequest(\"Snapshot over maximum allowed size\"));\n        }\n", "")], "C15", "no size check")
+mut("header-unwrap", ["C15"], [(API, "let client_id = client_id_hdr.to_str().map_err(|_| badrequest())?;", "let client_id = client_id_hdr.to_str().unwrap();")], "C15.NOPANIC", "panic on non-text header")
+mut("refusal-500", ["C15"], [(AV, "return Err(error::ErrorBadRequest(\"Empty body\"));", "return Err(error::ErrorInternalServerError(\"Empty body\"));")], "C15.REFUSE", "refusal is 5xx")
+mut("empty-check-removed", ["C15"], [(AS, "    if body.is_empty() {\n        return Err(error::ErrorBadRequest(\"No snapshot supplied\"));\n    }\n", "")], "C15", "empty body accepted")
+mut("ctype-check-after-op", ["C15"], [(AS, "    if req.content_type() != SNAPSHOT_CONTENT_TYPE {\n        return Err(error::ErrorBadRequest(\"Bad content-type\"));\n    }\n", "")], "C15.CTYPE", "content type unchecked")
+
+# ---- C16
+mut("allowlist-log-only", ["C16"], [(API, "                    return Err(error::ErrorForbidden(\"unknown x-client-id\"));", "                    log::warn!(\"unknown x-client-id\");")], "C16", "helper logs instead of refusing")
+mut("allowlist-dropped", ["C16", "C17"], [(LIB, "                server: Server::new(config, storage),\n                client_id_allowlist,", "                server: Server::new(config, storage),\n                client_id_allowlist: client_id_allowlist.and(None),")], "C16.WIRE", "list dropped at construction")
+mut("allowlist-bypass-endpoint", ["C16", "C09"], [(GS, "let client_id = server_state.client_id_header(&req)?;", "let client_id = req.headers().get(\"X-Client-Id\").and_then(|h| h.to_str().ok()).and_then(|s| uuid::Uuid::parse_str(s).ok()).ok_or_else(|| error::ErrorBadRequest(\"bad x-client-id\"))?;")], "C16", "endpoint parses the header itself")
+mut("allowlist-inverted", ["C16"], [(API, "if !allow_list.contains(&client_id) {", "if allow_list.contains(&client_id) {")], "C16.HELPER", "membership inverted")
+
+# ---- C20
+mut("cache-health-route", ["C20"], [(BIN, ".configure(|cfg| server.config(cfg))", ".configure(|cfg| server.config(cfg))\n            .route(\"/health\", actix_web::web::get().to(|| async { \"ok\" }))")], "C20.ONLY", "route outside the scope")
+mut("cache-directive-no-cache", ["C20"], [(LIB, "(\"Cache-Control\", \"no-store, max-age=0\")", "(\"Cache-Control\", \"no-cache, max-age=0\")")], "C20.WRAP", "directive allows storage")
+mut("cache-wrap-removed", ["C20"], [(LIB, "                .wrap(\n                    middleware::DefaultHeaders::new().add((\"Cache-Control\", \"no-store, max-age=0\")),\n                )\n", "")], "C20.WRAP", "wrap removed")
+mut("cache-handler-override", ["C20"], [(GS, ".content_type(SNAPSHOT_CONTENT_TYPE)", ".content_type(SNAPSHOT_CONTENT_TYPE)\n            .append_header((\"Cache-Control\", \"max-age=3600\"))")], "C20.NOOVERRIDE", "handler sets own cache-control")
